@@ -10,12 +10,14 @@ import (
 	"strings"
 	"sync"
 	"testing"
+	"time"
 
 	"google.golang.org/protobuf/reflect/protoreflect"
 	"google.golang.org/protobuf/reflect/protoregistry"
 	"google.golang.org/protobuf/types/descriptorpb"
 	"google.golang.org/protobuf/zverif/c41/c41run"
 	"google.golang.org/protobuf/zverif/gen"
+	"google.golang.org/protobuf/zverif/gencode"
 	"google.golang.org/protobuf/zverif/mcase"
 	"google.golang.org/protobuf/zverif/model"
 	"google.golang.org/protobuf/zverif/ops"
@@ -35,23 +37,42 @@ type batchCase struct {
 	Text  []string `json:"text,omitempty"`
 }
 
+// runner is one unit: a schema set at one API level inside a linked program.
 type runner struct {
 	level   string
-	files   []*descriptorpb.FileDescriptorProto // the whole set (as drawn)
+	adv     bool
+	raw     [][]byte
+	files   []*descriptorpb.FileDescriptorProto // the whole set
 	keep    map[int]bool                        // files linked into the program
 	dropped map[int]string                      // files left out: registered reason
 	ids     []string                            // findings that explain the dropped files
-	bin     string
-	batchF  string
-	conn    *pbt.PeerConn
+	prog    *program
+	unit    int // index in the program
+	udir    string
 	initRes c41run.Resp
-	err     error // why there is no usable runner (a violation unless it starts with "harness:")
-	mu      sync.Mutex
+	err     error // why there is no usable runner (a violation unless it starts with "harness:" / "skip:")
+}
+
+// program is one linked main program serving several units.
+type program struct {
+	dir, name, tags string
+	bin, batchF     string
+	conn            *pbt.PeerConn
+	mu              sync.Mutex
+}
+
+// unitSpec asks for a runner. Sets linked into one program must not share file paths or full names
+// (see prefixSet).
+type unitSpec struct {
+	raw   [][]byte
+	level string
+	adv   bool
 }
 
 var (
 	runnersMu sync.Mutex
 	runners   = map[string]*runner{}
+	programs  []*program
 )
 
 func setKey(raw [][]byte, level string) string {
@@ -75,15 +96,16 @@ func hasWKT(files []*descriptorpb.FileDescriptorProto) bool {
 	return false
 }
 
-// buildRunners generates, type-checks, writes, compiles and links the set at the given levels (one go
-// build per tag set) and registers a runner per level. Already known (set, level) pairs are kept.
-func buildRunners(raw [][]byte, lvls []string, adv bool) {
+// buildRunners generates, type-checks, writes, compiles and links the requested units: one scratch
+// module, one main program (one go build, one link) per build-tag set. Known (set, level) pairs are kept.
+func buildRunners(specs []unitSpec) {
+	t0 := time.Now()
 	var todo []*runner
 	runnersMu.Lock()
-	for _, l := range lvls {
-		k := setKey(raw, l)
+	for _, sp := range specs {
+		k := setKey(sp.raw, sp.level)
 		if runners[k] == nil {
-			r := &runner{level: l}
+			r := &runner{level: sp.level, adv: sp.adv, raw: sp.raw}
 			runners[k] = r
 			todo = append(todo, r)
 		}
@@ -92,41 +114,34 @@ func buildRunners(raw [][]byte, lvls []string, adv bool) {
 	if len(todo) == 0 {
 		return
 	}
-	fail := func(err error) {
-		for _, r := range todo {
-			if r.err == nil && r.bin == "" {
-				r.err = err
-			}
-		}
-	}
-	files, err := schema.Unmarshal(raw)
-	if err != nil {
-		fail(fmt.Errorf("harness: %v", err))
-		return
-	}
-	if _, err := schema.Build(files); err != nil {
-		fail(fmt.Errorf("harness: not a valid schema set: %v", err))
-		return
-	}
 	dir, err := nextDir("mod")
+	if err == nil {
+		err = writeModule(dir)
+	}
 	if err != nil {
-		fail(fmt.Errorf("harness: %v", err))
+		for _, r := range todo {
+			r.err = fmt.Errorf("harness: %v", err)
+		}
 		return
 	}
-	if err := writeModule(dir); err != nil {
-		fail(fmt.Errorf("harness: %v", err))
-		return
-	}
-	gens := map[*runner]*generated{}
 	byTags := map[string][]*runner{}
-	for _, r := range todo {
+	for ui, r := range todo {
+		files, err := schema.Unmarshal(r.raw)
+		if err != nil {
+			r.err = fmt.Errorf("harness: %v", err)
+			continue
+		}
+		if _, err := schema.Build(files); err != nil {
+			r.err = fmt.Errorf("harness: not a valid schema set: %v", err)
+			continue
+		}
 		r.files = files
-		g, bad, res, err := frontEnd(files, r.level, true)
+		r.udir = fmt.Sprintf("u%d", ui)
+		g, bad, res, err := frontEndAt(files, r.level, r.udir, true)
 		if err != nil {
 			r.err = err
 			continue
 		}
-		gens[r] = g
 		r.keep, r.dropped, r.ids = map[int]bool{}, bad, res.ids
 		for i := range files {
 			if bad[i] == "" {
@@ -137,108 +152,118 @@ func buildRunners(raw [][]byte, lvls []string, adv bool) {
 			r.err = fmt.Errorf("skip: every package of the set fails for a registered reason")
 			continue
 		}
-		if err := writeLevel(dir, g, r.level, r.keep); err != nil {
+		if err := writeUnit(dir, g, r.keep); err != nil {
 			r.err = fmt.Errorf("harness: %v", err)
 			continue
 		}
-		var kept []*descriptorpb.FileDescriptorProto
-		for i, f := range g.files {
-			if r.keep[i] {
-				kept = append(kept, f)
-			}
-		}
-		r.batchF = filepath.Join(dir, "batch-"+strings.ReplaceAll(r.level, "+", "-")+".json")
-		b := c41run.Batch{Level: r.level, Files: schema.Marshal(kept), Expected: expectedDescriptors(kept), Names: !adv, WKT: hasWKT(kept)}
-		if err := os.WriteFile(r.batchF, mustJSON(b), 0o644); err != nil {
-			r.err = fmt.Errorf("harness: %v", err)
-			continue
-		}
+		r.files = g.files // with go_package: what the generator saw
 		byTags[goTags(r.level)] = append(byTags[goTags(r.level)], r)
 	}
+	tFront := time.Since(t0)
 	for _, tag := range sortedKeys(byTags) {
 		rs := byTags[tag]
-		var ls []string
-		for _, r := range rs {
-			ls = append(ls, r.level)
-		}
-		out, err := goBuild(dir, ls)
-		if err == nil {
-			for _, r := range rs {
-				r.bin = binPath(dir, r.level)
+		for attempt := 0; attempt < 2 && len(rs) > 0; attempt++ {
+			p := &program{dir: dir, name: fmt.Sprintf("main%s%d", tag, attempt), tags: tag}
+			var imports []string
+			var batch c41run.Batch
+			for i, r := range rs {
+				var kept []*descriptorpb.FileDescriptorProto
+				for j, f := range r.files {
+					if r.keep[j] {
+						kept = append(kept, f)
+						imports = append(imports, gencode.GoImportPathOf(f))
+					}
+				}
+				batch.Units = append(batch.Units, c41run.Unit{Level: r.level, Files: schema.Marshal(kept), Expected: expectedDescriptors(kept), Names: !r.adv, WKT: hasWKT(kept)})
+				r.unit = i
 			}
-			continue
-		}
-		// which level failed? compiler diagnostics carry the package directory
-		errs := parseBuildErrors(out)
-		attributed := false
-		for _, r := range rs {
-			var mine []buildError
-			for _, e := range errs {
-				if strings.HasPrefix(e.File, pkgBase(r.level)+"/") {
-					mine = append(mine, e)
+			p.batchF = filepath.Join(dir, p.name+".json")
+			err := os.WriteFile(p.batchF, mustJSON(batch), 0o644)
+			if err == nil {
+				err = writeMain(dir, p.name, imports)
+			}
+			if err != nil {
+				for _, r := range rs {
+					r.err = fmt.Errorf("harness: %v", err)
+				}
+				break
+			}
+			out, err := goBuild(dir, p.name, tag)
+			if err == nil {
+				p.bin = filepath.Join(dir, p.name+".bin")
+				runnersMu.Lock()
+				programs = append(programs, p)
+				runnersMu.Unlock()
+				for _, r := range rs {
+					r.prog = p
+				}
+				break
+			}
+			// attribute the diagnostics to units; the others are linked again without the failing ones
+			errs := parseBuildErrors(out)
+			var rest []*runner
+			for _, r := range rs {
+				var mine []buildError
+				for _, e := range errs {
+					if e.Unit == r.udir {
+						mine = append(mine, e)
+					}
+				}
+				if len(mine) > 0 {
+					e := mine[0]
+					r.err = fmt.Errorf("generated package of %s (API level %s) does not compile (go build): %s:%s: %s (%d diagnostics)", r.files[e.Pkg].GetName(), r.level, e.File, e.Pos, e.Msg, len(mine))
+				} else {
+					rest = append(rest, r)
 				}
 			}
-			if len(mine) > 0 {
-				attributed = true
-				e := mine[0]
-				r.err = &compileError{pkg: e.Pkg, msg: fmt.Sprintf("generated package of %s (API level %s) does not compile (go build): %s:%s: %s (%d diagnostics)", files[e.Pkg].GetName(), r.level, e.File, e.Pos, e.Msg, len(mine))}
+			if len(rest) == len(rs) || attempt == 1 {
+				for _, r := range rest {
+					r.err = fmt.Errorf("harness: go build failed without a diagnostic in a generated package: %v\n%.3000s", err, out)
+				}
+				break
 			}
-		}
-		if !attributed {
-			for _, r := range rs {
-				r.err = fmt.Errorf("harness: go build failed without a diagnostic in a generated package: %v\n%.3000s", err, out)
-			}
-			continue
-		}
-		// the other levels of this invocation were not linked either: build them one by one
-		for _, r := range rs {
-			if r.err != nil {
-				continue
-			}
-			if out, err := goBuild(dir, []string{r.level}); err != nil {
-				r.err = fmt.Errorf("harness: go build: %v\n%.3000s", err, out)
-			} else {
-				r.bin = binPath(dir, r.level)
-			}
+			rs = rest
 		}
 	}
+	tBuild := time.Since(t0) - tFront
 	for _, r := range todo {
-		if r.err != nil || r.bin == "" {
+		if r.err != nil || r.prog == nil {
 			continue
 		}
-		r.start()
-		if r.err == nil {
-			if err := r.conn.Call(c41run.Req{Op: "init"}, &r.initRes); err != nil {
-				r.err = fmt.Errorf("at init (API level %s): %v", r.level, strings.TrimPrefix(err.Error(), "peer: "))
+		if err := r.call(c41run.Req{Op: "init"}, &r.initRes); err != nil {
+			if strings.HasPrefix(err.Error(), "harness:") {
+				r.err = err
+			} else {
+				r.err = fmt.Errorf("at init (API level %s): %v", r.level, err)
 			}
 		}
 	}
+	pbt.S.Note("%d units: generate+format+typecheck %.1fs, go build %.1fs, start+init %.1fs", len(todo), tFront.Seconds(), tBuild.Seconds(), (time.Since(t0) - tFront - tBuild).Seconds())
 }
 
-type compileError struct {
-	pkg int
-	msg string
-}
-
-func (e *compileError) Error() string { return e.msg }
-
-func (r *runner) start() {
-	conn, err := pbt.StartPeer(r.bin, "C41_BATCH="+r.batchF)
+func (p *program) start() error {
+	conn, err := pbt.StartPeer(p.bin, "C41_BATCH="+p.batchF)
 	if err != nil {
-		r.err = fmt.Errorf("harness: %v", err)
-		return
+		return fmt.Errorf("harness: %v", err)
 	}
-	r.conn = conn
+	p.conn = conn
+	return nil
+}
+
+func (p *program) stop() {
+	p.mu.Lock()
+	defer p.mu.Unlock()
+	if p.conn != nil {
+		p.conn.Close()
+		p.conn = nil
+	}
 }
 
 func closeRunners() {
 	runnersMu.Lock()
 	defer runnersMu.Unlock()
-	for _, r := range runners {
-		if r.conn != nil {
-			r.conn.Close()
-			r.conn = nil
-		}
+	for _, p := range programs {
+		p.stop()
 	}
 }
 
@@ -247,7 +272,7 @@ func runnerFor(raw [][]byte, level string, adv bool) *runner {
 	r := runners[setKey(raw, level)]
 	runnersMu.Unlock()
 	if r == nil {
-		buildRunners(raw, []string{level}, adv)
+		buildRunners([]unitSpec{{raw, level, adv}})
 		runnersMu.Lock()
 		r = runners[setKey(raw, level)]
 		runnersMu.Unlock()
@@ -255,21 +280,23 @@ func runnerFor(raw [][]byte, level string, adv bool) *runner {
 	return r
 }
 
-// call sends one request; a dead runner (crash of the generated code) is reported and restarted.
+// call sends one request to the unit's program; a dead program (crash of the generated code) is
+// reported and restarted for the next case.
 func (r *runner) call(q c41run.Req, resp *c41run.Resp) error {
-	r.mu.Lock()
-	defer r.mu.Unlock()
-	if r.conn == nil {
-		r.start()
-		if r.err != nil {
-			return r.err
+	p := r.prog
+	p.mu.Lock()
+	defer p.mu.Unlock()
+	if p.conn == nil {
+		if err := p.start(); err != nil {
+			return err
 		}
 	}
-	err := r.conn.Call(q, resp)
-	if err != nil && strings.HasPrefix(err.Error(), "peer died") || err != nil && strings.HasPrefix(err.Error(), "peer write") {
-		r.conn.Close()
-		r.conn = nil
-		return fmt.Errorf("the program linked with the generated code died while handling the case (fatal error / os.Exit): %v", err)
+	q.Unit = r.unit
+	err := p.conn.Call(q, resp)
+	if err != nil && (strings.HasPrefix(err.Error(), "peer died") || strings.HasPrefix(err.Error(), "peer write")) {
+		p.conn.Close()
+		p.conn = nil
+		return fmt.Errorf("the program linked with the generated code died while handling the request (fatal error / os.Exit): %v", err)
 	}
 	if err != nil {
 		return fmt.Errorf("%s", strings.TrimPrefix(err.Error(), "peer: "))
@@ -288,11 +315,20 @@ func checkBatch(c batchCase) error {
 	return nil
 }
 
+// batchSpec is one drawn schema set; variant is the set as linked at one level (prefixed unless it
+// is the first unit of its program).
 type batchSpec struct {
-	idx   int
-	opts  schema.Opts
-	adv   bool
-	lvls  []string
+	idx      int
+	opts     schema.Opts
+	adv      bool
+	lvls     []string
+	files    []*descriptorpb.FileDescriptorProto
+	variants []*variant
+}
+
+type variant struct {
+	b     *batchSpec
+	level string
 	files []*descriptorpb.FileDescriptorProto
 	raw   [][]byte
 	reg   *protoregistry.Files
@@ -304,18 +340,21 @@ type batchSpec struct {
 func planBatches() []*batchSpec {
 	n := 2
 	if pbt.Thorough() {
-		n = 4
+		n = 5
 	}
 	var out []*batchSpec
 	for i := 0; i < n; i++ {
 		k := int(pbt.Shard)*n + i
 		b := &batchSpec{idx: k}
-		kind := k % 4
+		kind := k % 5
 		if !pbt.Thorough() {
 			kind = []int{int(pbt.Seed) % 2, 2}[i] // quick: a plain set (well-known imports on odd seeds) and an adversarial one
 		}
 		b.opts = schema.Opts{MaxFiles: 8, Lazy: true}
-		b.lvls = []string{"open", "hybrid", "opaque", "hybrid+protoopaque"}
+		b.lvls = []string{"open", "hybrid", "opaque"}
+		if pbt.Thorough() {
+			b.lvls = append(b.lvls, "hybrid+protoopaque")
+		}
 		switch kind {
 		case 1:
 			b.opts.WellKnown = true
@@ -324,38 +363,75 @@ func planBatches() []*batchSpec {
 			b.opts.AdversarialNames = true
 			b.opts.MaxFiles = 6
 			b.adv = true
-			one := []string{"open", "hybrid", "opaque", "hybrid+protoopaque"}[(int(pbt.Seed)+k)%4]
-			b.lvls = []string{one}
-			if pbt.Thorough() {
-				b.lvls = []string{"open", "hybrid", "opaque"}
+			if !pbt.Thorough() {
+				b.lvls = []string{levels[(int(pbt.Seed)+k)%3]}
 			}
 		case 3:
 			b.opts.MaxFiles = 5
 			b.opts.MaxMessages = 6
 			b.opts.MaxFields = 12
-			b.opts.WellKnown = k%8 == 7
+		case 4:
+			b.opts.WellKnown = true
+			b.opts.NoGroups = k%2 == 0
+			b.opts.Syntaxes = [][]string{{"proto2", "proto3"}, {"2023", "2024"}, {"proto3", "2024"}}[k%3]
 		}
 		seed := int(pbt.DeriveSeed(fmt.Sprintf("batch-%d", k)) & 0x7fffffff)
-		// a set worth a build: at least 3 files and 6 messages (the example generator favours small values)
+		// a set worth a build: at least 3 files and 8 messages (the example generator favours small values)
+		var best []*descriptorpb.FileDescriptorProto
+		nbest := -1
 		for try := 0; try < 40; try++ {
 			files := schema.Generator(b.opts).Example(seed + try)
 			reg, err := schema.Build(files)
 			if err != nil {
 				continue
 			}
-			if b.files == nil || len(schema.Messages(reg, files)) > len(schema.Messages(b.reg, b.files)) {
-				b.files, b.reg = files, reg
+			if nm := len(schema.Messages(reg, files)); nm > nbest {
+				best, nbest = files, nm
 			}
-			if len(files) >= 3 && len(schema.Messages(reg, files)) >= 8 {
+			if len(files) >= 3 && nbest >= 8 {
 				break
 			}
 		}
-		if b.files == nil {
+		if best == nil {
 			continue
 		}
-		b.raw = schema.Marshal(b.files)
-		b.types, _ = schema.Types(b.reg, b.files)
+		b.files = best
 		out = append(out, b)
+	}
+	// units: the first unit of each program (one program per build-tag set) keeps its names, the
+	// others get a package / path prefix; which (set, level) comes first rotates with the seed
+	type pair struct {
+		b *batchSpec
+		l string
+	}
+	var pairs []pair
+	for _, b := range out {
+		for _, l := range b.lvls {
+			pairs = append(pairs, pair{b, l})
+		}
+	}
+	if len(pairs) > 0 {
+		r := (int(pbt.Seed) + int(pbt.Shard)) % len(pairs)
+		pairs = append(pairs[r:], pairs[:r]...)
+	}
+	pos := map[string]int{}
+	for _, p := range pairs {
+		tag := goTags(p.l)
+		pfx := ""
+		if pos[tag] > 0 {
+			pfx = fmt.Sprintf("v%d", pos[tag])
+		}
+		pos[tag]++
+		v := &variant{b: p.b, level: p.l, files: prefixSet(p.b.files, pfx)}
+		reg, err := schema.Build(v.files)
+		if err != nil {
+			fmt.Printf("HARNESS-ERROR property=C41 check=batch prefixed copy of a schema set is not valid: %v\n", err)
+			continue
+		}
+		v.reg = reg
+		v.raw = schema.Marshal(v.files)
+		v.types, _ = schema.Types(reg, v.files)
+		p.b.variants = append(p.b.variants, v)
 	}
 	return out
 }
@@ -368,9 +444,13 @@ var (
 func batches() []*batchSpec {
 	planOnce.Do(func() {
 		plan = planBatches()
+		var specs []unitSpec
 		for _, b := range plan {
-			buildRunners(b.raw, b.lvls, b.adv)
+			for _, v := range b.variants {
+				specs = append(specs, unitSpec{v.raw, v.level, b.adv})
+			}
 		}
+		buildRunners(specs)
 	})
 	return plan
 }
@@ -384,8 +464,9 @@ func TestBatch(t *testing.T) {
 	}
 	pbt.S.SetRule("batch", batchRule)
 	for _, b := range batches() {
-		for _, l := range b.lvls {
-			c := batchCase{Raw: b.raw, Level: l, Adv: b.adv, Text: schema.Text(b.files)}
+		for _, v := range b.variants {
+			l := v.level
+			c := batchCase{Raw: v.raw, Level: l, Adv: b.adv, Text: schema.Text(v.files)}
 			r := runnerFor(c.Raw, c.Level, c.Adv)
 			if r.err != nil && !strings.HasPrefix(r.err.Error(), "skip:") {
 				if strings.HasPrefix(r.err.Error(), "harness:") {
@@ -398,6 +479,9 @@ func TestBatch(t *testing.T) {
 				continue
 			}
 			cl := []string{"level:" + l, fmt.Sprintf("files:%d", len(b.files)), fmt.Sprintf("linked-packages:%d", len(r.keep))}
+			if v.files[0].GetName() == b.files[0].GetName() {
+				cl = append(cl, "unprefixed")
+			}
 			if b.adv {
 				cl = append(cl, "adversarial-names")
 			}
@@ -445,6 +529,7 @@ func checkRuntime(c rtCase) error {
 
 type drawable struct {
 	b    *batchSpec
+	v    *variant
 	r    *runner
 	msgs []protoreflect.MessageDescriptor
 	exts func(protoreflect.FullName) []protoreflect.ExtensionType
@@ -463,24 +548,24 @@ func drawables() []*drawable {
 func computeDrawables() []*drawable {
 	var out []*drawable
 	for _, b := range batches() {
-		for _, l := range b.lvls {
-			r := runnerFor(b.raw, l, b.adv)
+		for _, v := range b.variants {
+			r := runnerFor(v.raw, v.level, b.adv)
 			if r.err != nil {
 				continue
 			}
-			d := &drawable{b: b, r: r}
+			d := &drawable{b: b, v: v, r: r}
 			kept := map[string]bool{}
-			for i, f := range b.files {
+			for i, f := range v.files {
 				if r.keep[i] {
 					kept[f.GetName()] = true
 				}
 			}
-			for _, md := range schema.Messages(b.reg, b.files) {
+			for _, md := range schema.Messages(v.reg, v.files) {
 				if kept[md.ParentFile().Path()] {
 					d.msgs = append(d.msgs, md)
 				}
 			}
-			all := schema.ExtTypesOf(b.reg, b.files)
+			all := schema.ExtTypesOf(v.reg, v.files)
 			d.exts = func(n protoreflect.FullName) []protoreflect.ExtensionType {
 				var xs []protoreflect.ExtensionType
 				for _, xt := range all(n) {
@@ -511,10 +596,13 @@ func (k keptTypes) FindExtensionByNumber(m protoreflect.FullName, n protoreflect
 }
 
 func rtDescriptor(c rtCase) (protoreflect.MessageDescriptor, *protoregistry.Types) {
+	key := setKey(c.Raw, "")
 	for _, b := range batches() {
-		if setKey(b.raw, "") == setKey(c.Raw, "") {
-			if d, err := b.reg.FindDescriptorByName(protoreflect.FullName(c.Msg)); err == nil {
-				return d.(protoreflect.MessageDescriptor), b.types
+		for _, v := range b.variants {
+			if setKey(v.raw, "") == key {
+				if d, err := v.reg.FindDescriptorByName(protoreflect.FullName(c.Msg)); err == nil {
+					return d.(protoreflect.MessageDescriptor), v.types
+				}
 			}
 		}
 	}
@@ -542,7 +630,7 @@ func TestRuntime(t *testing.T) {
 			ds := drawables()
 			d := ds[rapid.IntRange(0, len(ds)-1).Draw(t, "program")]
 			md := d.msgs[rapid.IntRange(0, len(d.msgs)-1).Draw(t, "message")]
-			c := rtCase{Raw: d.b.raw, Level: d.r.level, Adv: d.b.adv, Msg: string(md.FullName())}
+			c := rtCase{Raw: d.v.raw, Level: d.r.level, Adv: d.b.adv, Msg: string(md.FullName())}
 			c.Bad8 = rapid.IntRange(0, 4).Draw(t, "bad-utf8") == 4
 			c.NoLazy = rapid.IntRange(0, 3).Draw(t, "nolazy") == 3
 			model.DefaultResolver = keptTypes{d}
